@@ -80,3 +80,15 @@ func VerifFollowerWal(c FollowerController) wal.Wal {
 	defer fc.Unlock()
 	return fc.wal
 }
+
+// VerifLeaderCursors returns the acknowledged offset of every follower cursor of a leader controller.
+func VerifLeaderCursors(c LeaderController) map[string]int64 {
+	lc := c.(*leaderController)
+	lc.RLock()
+	defer lc.RUnlock()
+	res := map[string]int64{}
+	for name, fc := range lc.followers {
+		res[name] = fc.AckOffset()
+	}
+	return res
+}
